@@ -41,6 +41,8 @@ func elems[T any](s []T, r ...int) bool { return true }
 func fresh[T any](p *T) bool            { return true }
 func clock() time.Time                  { return time.Now() }
 func same[T any](a, b T) bool           { return true }
+func typed[T any](p *T) bool            { return true }
+func locked[T any](m *T) bool           { return true }
 func mapof[K comparable, V any](m map[K]V) bool { return true }
 func has[K comparable, V any](m map[K]V, k K) bool {
 	_, ok := m[k]
@@ -850,6 +852,158 @@ func verifLemmaCeil(a, d time.Duration) {}
 //@   ensures[slots] len(result.wheel) == result.wheelLen && result.expired != nil && result.lastTick == nil && result.itemCache == nil
 //@   loop 1 invariant true
 //@   loop 1 assigns elems(tw.wheel)
+
+// List structure of the wheel (local shape, not the full "exactly once"
+// argument): every slot and the expired list exist and are distinct objects;
+// a list is empty iff both ends are nil, and its tail ends the chain; the head
+// of the recycle cache is not the tail of any list. Add, Purge and Advance are
+// stated against that shape, pointwise in an arbitrary slot k. These are
+// "impl" views: callers in other properties see only the trusted frame
+// abstraction above (C18).
+
+//@ func specListOK
+//@   pure
+func specListOK[T any](l *TimeoutList[T]) bool {
+	return l != nil && (l.Head == nil) == (l.Tail == nil) && (l.Tail == nil || l.Tail.Next == nil)
+}
+
+// specWheelAt: shape at slot j, pointwise (the contracts below take arbitrary
+// slots j, k as rigid ghosts, which is the quantified statement instantiated
+// by hand).
+//@ func specWheelAt
+//@   pure
+func specWheelAt[T any](tw *TimerWheel[T], j int) bool {
+	return implies(0 <= j && j < len(tw.wheel), specListOK(tw.wheel[j]) && tw.wheel[j] != tw.expired && (tw.itemCache == nil || tw.wheel[j].Tail != tw.itemCache))
+}
+
+//@ func specWheelBase
+//@   pure
+func specWheelBase[T any](tw *TimerWheel[T]) bool {
+	return specWheelOK(tw) && len(tw.wheel) == tw.wheelLen && specListOK(tw.expired) && (tw.itemCache == nil || tw.expired.Tail != tw.itemCache)
+}
+
+// specSlotFor: k is the slot findWheel picks for the timeout.
+//@ func specSlotFor
+//@   pure
+func specSlotFor[T any](tw *TimerWheel[T], k int, timeout time.Duration) bool {
+	return 0 <= k && k < tw.wheelLen && specFwd(k, tw.current, tw.wheelLen)-1 == int(specCeilDiv(specClamp(timeout, tw.tickDuration, tw.wheelDuration), tw.tickDuration))
+}
+
+// Add: the item (recycled from the cache or new) carries v, ends its chain and
+// is the new tail of the slot findWheel picks, linked after the old tail (or
+// as head of an empty slot); every other slot and the expired list keep their
+// ends.
+//@ func (*TimerWheel).Add impl
+//@   props C33
+//@   abstractdiv
+//@   ghost j int
+//@   ghost k int
+//@   requires tw != nil && specWheelBase(tw)
+//@   requires[pick]  specSlotFor(tw, j, timeout)
+//@   requires[shape] specWheelAt(tw, j) && specWheelAt(tw, k) && implies(0 <= k && k < len(tw.wheel) && j != k, tw.wheel[j] != tw.wheel[k])
+//@   ensures[item]    result != nil && result.Item == v && result.Next == nil
+//@   ensures[reuse]   ite(old(tw.itemCache) != nil, result == old(tw.itemCache) && tw.itemCache == old(tw.itemCache.Next) && tw.itemsCached == old(tw.itemsCached)-1, fresh(result) && tw.itemCache == nil && tw.itemsCached == old(tw.itemsCached))
+//@   ensures[slot]    tw.wheel[j].Tail == result && ite(old(tw.wheel[j].Tail) == nil, tw.wheel[j].Head == result, tw.wheel[j].Head == old(tw.wheel[j].Head) && old(tw.wheel[j].Tail).Next == result)
+//@   ensures[others]  implies(0 <= k && k < tw.wheelLen && k != j, tw.wheel[k].Head == old(tw.wheel[k].Head) && tw.wheel[k].Tail == old(tw.wheel[k].Tail))
+//@   ensures[expired] tw.expired.Head == old(tw.expired.Head) && tw.expired.Tail == old(tw.expired.Tail)
+//@   ensures[geom]    tw.current == old(tw.current) && tw.wheelLen == old(tw.wheelLen) && tw.lastTick == old(tw.lastTick)
+
+// Purge: nothing when the expired list is empty; otherwise the head's item is
+// returned, the head moves to its successor (the list becomes empty when there
+// is none), and the node is unlinked and pushed on the recycle cache while
+// there is room.
+//@ func (*TimerWheel).Purge impl
+//@   props C33
+//@   requires tw != nil && specListOK(tw.expired)
+//@   old head0 = tw.expired.Head
+//@   ensures[empty] implies(head0 == nil, !result1 && tw.expired.Head == nil && tw.expired.Tail == old(tw.expired.Tail) && tw.itemCache == old(tw.itemCache) && tw.itemsCached == old(tw.itemsCached))
+//@   ensures[pop]   implies(head0 != nil, result1 && result0 == old(tw.expired.Head.Item) && tw.expired.Head == old(tw.expired.Head.Next))
+//@   ensures[tail]  implies(head0 != nil, tw.expired.Tail == ite(old(tw.expired.Head.Next) == nil, nil, old(tw.expired.Tail)))
+//@   ensures[cache] implies(head0 != nil, ite(old(tw.itemsCached) < timerCacheMax, tw.itemCache == head0 && head0.Next == old(tw.itemCache) && tw.itemsCached == old(tw.itemsCached)+1, tw.itemCache == old(tw.itemCache) && head0.Next == nil && tw.itemsCached == old(tw.itemsCached)))
+
+// Advance: the cursor moves forward by the whole ticks elapsed since the last
+// tick (at most one revolution), every slot passed over is emptied and every
+// other slot keeps its ends; items already expired stay at the front of the
+// expired list, the last non-empty slot passed over becomes its tail; and less
+// than one tick of elapsed time is left unaccounted in lastTick.
+//@ func specPassed
+//@   opaque
+func specPassed(k, cur, n, t int) bool {
+	return 0 <= k && k < n && 1 <= specFwd(k, cur, n) && specFwd(k, cur, n) <= t
+}
+
+//@ func specEpoch
+//@   pure
+func specEpoch() time.Time {
+	var t time.Time
+	return t
+}
+
+//@ func specCursor
+//@   opaque
+func specCursor(cur, t, n int) int {
+	if cur+t < n {
+		return cur + t
+	}
+	return cur + t - n
+}
+
+// specSlotIndex is an uninterpreted function from list objects to slot numbers:
+// "slot m's list has index m" for every m says the slots are pairwise distinct
+// objects with a single quantifier.
+//@ func specSlotIndex
+//@   opaque
+func specSlotIndex[T any](l *TimeoutList[T]) int { return 0 }
+
+//@ func specSlotAt
+//@   pure
+func specSlotAt[T any](tw *TimerWheel[T], m int) bool {
+	return tw.wheel[m] != nil && typed(tw.wheel[m]) && tw.wheel[m] != tw.expired && specSlotIndex(tw.wheel[m]) == m && (tw.wheel[m].Head == nil) == (tw.wheel[m].Tail == nil)
+}
+
+// One step of the cursor, as arithmetic facts proved once (the loop proof then
+// needs no 64-bit adder reasoning of its own): the cursor after i+1 ticks is
+// the code's increment-and-wrap of the cursor after i ticks, and the slots
+// passed after i+1 ticks are those passed after i ticks plus the new cursor.
+//@ func verifLemmaWheelStep
+//@   props C33
+//@   reveal specPassed specCursor
+//@   requires 0 <= cur && cur < n && n <= 1<<31 && 0 <= i && i <= n
+//@   ensures[base]   specCursor(cur, 0, n) == cur && !specPassed(k, cur, n, 0)
+//@   ensures[slot]   implies(specPassed(k, cur, n, i) || specPassed(k, cur, n, i+1), 0 <= k && k < n)
+//@   ensures[range]  implies(i < n, 0 <= specCursor(cur, i, n) && specCursor(cur, i, n) < n && 0 <= specCursor(cur, i+1, n) && specCursor(cur, i+1, n) < n)
+//@   ensures[cursor] implies(i < n, specCursor(cur, i+1, n) == ite(specCursor(cur, i, n)+1 >= n, 0, specCursor(cur, i, n)+1))
+//@   ensures[passed] implies(i < n, specPassed(k, cur, n, i+1) == (specPassed(k, cur, n, i) || k == specCursor(cur, i+1, n)))
+//@   assigns nothing
+func verifLemmaWheelStep(k, cur, n, i int) {}
+
+//@ func (*TimerWheel).Advance impl
+//@   props C33
+//@   abstractdiv
+//@   ghost k int
+//@   requires tw != nil && specWheelBase(tw) && specWheelAt(tw, k) && tw.wheelLen <= 1<<31
+//@   requires[slots] forall(func(m int) bool { return implies(0 <= m && m < len(tw.wheel), specSlotAt(tw, m)) })
+//@   requires[time]  !now.Before(specEpoch()) && implies(tw.lastTick != nil, !tw.lastTick.Before(specEpoch()))
+//@   old cur0 = tw.current
+//@   old last0 = ite(tw.lastTick == nil, now, *tw.lastTick)
+//@   old adv0 = int(now.Sub(last0) / tw.tickDuration)
+//@   old t0 = ite(adv0 > tw.wheelLen, tw.wheelLen, ite(adv0 < 0, 0, adv0))
+//@   ensures[cursor]  tw.current == specCursor(cur0, t0, tw.wheelLen) && tw.wheelLen == old(tw.wheelLen)
+//@   ensures[emptied] implies(specPassed(k, cur0, tw.wheelLen, t0), tw.wheel[k].Head == nil && tw.wheel[k].Tail == nil)
+//@   ensures[kept]    implies(0 <= k && k < tw.wheelLen && !specPassed(k, cur0, tw.wheelLen, t0), tw.wheel[k].Head == old(tw.wheel[k].Head) && tw.wheel[k].Tail == old(tw.wheel[k].Tail))
+//@   ensures[front]   implies(old(tw.expired.Head) != nil, tw.expired.Head == old(tw.expired.Head))
+//@   ensures[remain]  tw.lastTick != nil && implies(!now.Before(last0), !now.Before(*tw.lastTick) && now.Sub(*tw.lastTick) < tw.tickDuration)
+//@   loop 1 invariant[i]       0 <= i && i <= t0 && ticks == ite(adv0 > tw.wheelLen, tw.wheelLen, adv0) && adv == adv0
+//@   loop 1 invariant[geom]    tw.wheelLen == old(tw.wheelLen) && len(tw.wheel) == tw.wheelLen && same(tw.wheel, old(tw.wheel)) && tw.expired == old(tw.expired) && tw.tickDuration == old(tw.tickDuration)
+//@   loop 1 invariant[tick]    tw.lastTick != nil && *tw.lastTick == last0
+//@   loop 1 invariant[cursor]  tw.current == specCursor(cur0, i, tw.wheelLen)
+//@   loop 1 invariant[slots]   forall(func(m int) bool { return implies(0 <= m && m < len(tw.wheel), specSlotAt(tw, m)) })
+//@   loop 1 invariant[atk]     implies(0 <= k && k < tw.wheelLen, specSlotAt(tw, k))
+//@   loop 1 invariant[emptied] implies(specPassed(k, cur0, tw.wheelLen, i), tw.wheel[k].Head == nil && tw.wheel[k].Tail == nil)
+//@   loop 1 invariant[kept]    implies(0 <= k && k < tw.wheelLen && !specPassed(k, cur0, tw.wheelLen, i), tw.wheel[k].Head == old(tw.wheel[k].Head) && tw.wheel[k].Tail == old(tw.wheel[k].Tail))
+//@   loop 1 invariant[front]   implies(old(tw.expired.Head) != nil, tw.expired.Head == old(tw.expired.Head)) && (tw.expired.Head == nil) == (tw.expired.Tail == nil)
+//@   loop 1 lemma[init] verifLemmaWheelStep(k, cur0, tw.wheelLen, i)
+//@   loop 1 decreases ticks - i
 
 //@ func newCalculatedRemote
 //@   props C48
